@@ -416,13 +416,25 @@ class Ctx:
                     return not flip
             if test[0] == "call":
                 c, flip = test[1], test[2]
-                at = {("call", c.path)}
-                if c.res:
-                    at.add(("call", c.res))
+                at = set()
+                orig._call(c, depth, at, set())
                 if atom_match(at, spec):
                     return not flip
             return None
         return self.find_tests(body, pred, depth)
+
+    def rel_tests(self, body, rel):
+        """all switches testing a comparison with relation `rel` (any operands), normalised"""
+        def pred(test, orig):
+            if test[0] != "cmp":
+                return None
+            r, flip = test[1], test[4]
+            if r == rel:
+                return not flip
+            if r == REL_NEG[rel]:
+                return flip
+            return None
+        return self.find_tests(body, pred, 0)
 
     def guarded(self, oid, body, targets, tests, truth, detail=""):
         """GUARD: targets reachable only via the edge on which the tested condition == truth.
